@@ -1,0 +1,25 @@
+//go:build verif
+
+/*
+Copyright The ORAS Authors.
+Licensed under the Apache License, Version 2.0 (the "License");
+you may not use this file except in compliance with the License.
+You may obtain a copy of the License at
+
+http://www.apache.org/licenses/LICENSE-2.0
+
+Unless required by applicable law or agreed to in writing, software
+distributed under the License is distributed on an "AS IS" BASIS,
+WITHOUT WARRANTIES OR CONDITIONS OF ANY KIND, either express or implied.
+See the License for the specific language governing permissions and
+limitations under the License.
+*/
+
+package syncutil
+
+// This file only exposes state for the verification harness.
+// It is compiled only with the build tag "verif".
+
+// VerifSlotFree reports whether the run slot of the Once is available: nobody is
+// inside the function and no result has been published yet.
+func (o *Once) VerifSlotFree() bool { return len(o.status) == 1 }
